@@ -149,5 +149,13 @@ func init() {
 	register("C06", "", ruleRoutingPairs, r6(scIntrospect, 5)) // a mutation sent to the wrong service never reaches its owner
 	register("C09", "", ruleResultIndex)                       // a failed operation keeps its place in the batch
 	register("C12", "", ruleOperationType)                     // the name of a child step is part of the de-duplication key
+	// round 8
+	register("C15", "", ruleRoutingPairs) // schemas[n] is the reconstruction of the service behind urls[n], not of another one
+	register("C17", "", ruleGatewayState) // what stitches an event is built for that subscription, not kept on the gateway
+	register("C16", "", ruleCallers(func(c string) bool { return strings.Contains(c, "ResolveIntrospectionFields") }))
+	register("C05", "", ruleMergeExemptions)
+	register("C02", "", ruleRouteLookupExemptions)
+	register("C01", "", ruleRouteLookupExemptions)
+	register("C12", "", ruleDedupConditions)
 	register("X6", "debug: R6 over whole module", ruleErr(errScope{label: "all", pkgs: []string{"pebbles", "common", "executor", "format", "gqlerrors", "introspection", "merger", "planner", "queryer", "requests"}}))
 }
